@@ -44,6 +44,7 @@ CONSTANTS
     JUNK,           \* pstore: kinds of malformed line
     MAXJUNK,        \* pstore: malformed lines inserted per behaviour
     MAXSAVES,       \* snap: snapshots saved per behaviour
+    REKEEP,         \* rot: whether the retention value may change between operations
     ImportCleans,   \* as coded: TRUE  (ImportState calls Clean first)
     UnmarshalMode,  \* as coded: "merge" (dsstate.Unmarshal does not empty the store)
     LoadSkipsBad    \* as coded after the fix: TRUE (unparsable line skipped)
@@ -342,7 +343,13 @@ RotMkLogs ==                      \* a data folder with Raft logs but no snapsho
     /\ dirs' = [dirs EXCEPT !.data = NoSnap]
     /\ nops' = nops + 1
     /\ UNCHANGED <<keep, nsave, nclean>>
-RNext == RotSave \/ RotClean \/ RotMkLogs
+RotRekeep ==                      \* the operator edits backups_rotate between runs
+    /\ Machine = "rot" /\ UNCHANGED <<xvars, svars, pvars>>
+    /\ REKEEP /\ nops < MAXOPS /\ nops > 0
+    /\ keep' \in KEEPS \ {keep}
+    /\ nops' = nops + 1
+    /\ UNCHANGED <<dirs, nsave, nclean>>
+RNext == RotSave \/ RotClean \/ RotMkLogs \/ RotRekeep
 
 \* step properties (action formulas, checked as [][...]_rvars)
 RotCleanStep == RotClean => CleanGood(dirs, keep, dirs')
